@@ -1,7 +1,7 @@
 SPECIFICATION MCSpec
 CONSTANTS
   Nodes <- MCNodes
-  SnapshotSource = "adapter_data"
+  SnapshotSource = "app"
   RestoreOfMapBytes = "error"
   MaxCmds = 4
 INVARIANTS PrintHist
